@@ -310,7 +310,7 @@ def run(chk, tier):
     if _X10.mem_shortcut_area(chk, db, ['_vector/', '_inplace_vector/', '_stack/', '_array/']) < 50:      # MEMSHORT (zero calls expected on the library)
         chk.analysis_broken('MEMSHORT: fewer than 50 function bodies scanned (floor 50)')
     if _X10.field_cast_area(chk, db, ['_vector/', '_inplace_vector/']) < 2:      # FIELDCAST
-        chk.analysis_broken('FIELDCAST: fewer than 2 stores into a size member found (floor 2)')
+        chk.unknown_instance('FIELDCAST', 'etl::static_vector / etl::inplace_vector', 'fewer than 2 direct stores into a size member found')
     _X10.positive_controls(chk, D, ('MEMSHORT', 'FIELDCAST'))
     if _X8.forward_move_area(chk, db, ['_vector/', '_inplace_vector/', '_stack/']) < 1:      # FWDMOVE
         chk.analysis_broken('FWDMOVE: no member with a forwarding-reference parameter found (floor 1)')
